@@ -246,14 +246,14 @@ fn seal_contract<P: version::Purpose>(own_nonce: bool) where AbsV: SealingVersio
     };
     vcheck_all!(
         (g.nonce_calls == own_nonce as u8, "[C16] seal draws exactly one nonce from the version; dangerous_seal_with_nonce draws none"),
-        (nonce_ok || (!res_ok && res_kind == g.nonce_outcome && g.seal_calls == 0 && g.enc_calls == 0), "[C16] a failing nonce source makes seal fail with that error and nothing is sealed"),
-        (!nonce_ok || (g.fenc_calls == 1), "[C01] the footer is encoded exactly once"),
-        (!(nonce_ok && !g.fenc_ok) || (!res_ok && res_kind == 5 && g.seal_calls == 0), "[C01] a footer that cannot be encoded is a PayloadError and nothing is sealed"),
-        (!(nonce_ok && g.fenc_ok && !g.enc_ok) || (!res_ok && res_kind == 5 && g.seal_calls == 0), "[C01] claims that cannot be encoded are a PayloadError and nothing is sealed"),
-        (!(nonce_ok && g.fenc_ok && g.enc_ok) || (g.seal_calls == 1 && g.seal_key == kid && payload_ok), "[C01] the version seals exactly nonce || encoded claims under the caller's key"),
-        (!(nonce_ok && g.fenc_ok && g.enc_ok) || (footer_ok && g.seal_aad == id(aad)), "[C02] the version receives exactly the encoded footer and the caller's assertion"),
+        (nonce_ok || (!res_ok && res_kind == g.nonce_outcome && g.seal_calls == 0), "[C16] a failing nonce source makes seal fail with that error and nothing is sealed"),
+        (g.fenc_calls <= 1 && g.enc_calls <= 1, "[C01] footer and claims are each encoded at most once"),
+        (!(g.fenc_calls == 1 && !g.fenc_ok) || (!res_ok && res_kind == 5 && g.seal_calls == 0), "[C01] a footer that cannot be encoded is a PayloadError and nothing is sealed"),
+        (!(g.enc_calls == 1 && !g.enc_ok) || (!res_ok && res_kind == 5 && g.seal_calls == 0), "[C01] claims that cannot be encoded are a PayloadError and nothing is sealed"),
+        (!(nonce_ok && g.fenc_calls == 1 && g.fenc_ok && g.enc_calls == 1 && g.enc_ok) || (g.seal_calls == 1 && g.seal_key == kid && payload_ok), "[C01] the version seals exactly nonce || encoded claims under the caller's key"),
+        (!(g.seal_calls == 1) || (g.fenc_calls == 1 && g.fenc_ok && g.enc_calls == 1 && g.enc_ok && footer_ok && g.seal_aad == id(aad)), "[C02] the version is called only after both encodings succeeded and receives exactly the encoded footer and the caller's assertion"),
         (!(g.seal_calls == 1 && g.seal_outcome != 5) || (!res_ok && res_kind == g.seal_outcome), "[C01] a sealing error is returned unchanged"),
-        (res_ok == (nonce_ok && g.fenc_ok && g.enc_ok && g.seal_outcome == 5), "[C01] a sealed token is produced iff nonce, encodings and the version's seal all succeed"),
+        (res_ok == (nonce_ok && g.fenc_calls == 1 && g.fenc_ok && g.enc_calls == 1 && g.enc_ok && g.seal_calls == 1 && g.seal_outcome == 5), "[C01] a sealed token is produced iff nonce, encodings and the version's seal all succeed"),
         (!res_ok || (out_payload_ok && out_footer_ok && out_fid == fid), "[C01] the sealed token holds exactly the version's output, the encoded footer and the footer value"),
     );
     kani::cover!(res_ok, "a successful seal exists");
